@@ -55,11 +55,13 @@ def chan_diff(a, b, channels=None):
 class Trio:
     """model + spec (one driver process) + real store, same configuration"""
 
-    def __init__(self, contents, depth=3, width=2, store_alg="SHA-256", ns=DEFAULT_NS, base=None, mp=False):
+    def __init__(self, contents, depth=3, width=2, store_alg="SHA-256", ns=DEFAULT_NS, base=None, mp=False, relative=False):
         self.contents = contents
         self.cfg = dict(depth=depth, width=width, store_alg=store_alg, ns=ns)
-        self.real = impl.Real(contents, depth, width, store_alg, ns, base=base, mp=mp)
+        # the store first: in multiprocessing mode it forks a manager process, which must not inherit the driver's pipes
+        self.real = impl.Real(contents, depth, width, store_alg, ns, base=base, mp=mp, relative=relative)
         self.model = lean.Model(contents, depth, width, store_alg, ns)
+        self.hung = False
         self.known = abstraction.Known(oracle.DATAONE[store_alg], ns)
         self.ns = ns
         self.i = 0
@@ -79,7 +81,7 @@ class Trio:
         w = call.wire()
         st.model = self.model.call(w)
         st.spec = self.model.req("scall " + w)
-        st.real = self.real.run(call)
+        st.real = self.run_real(call)
         st.stream = self.real.stream_status()
         if with_state:
             st.model_state = self.model.state()
@@ -92,6 +94,23 @@ class Trio:
             st.real_locks = self.real.locks()
             st.outside = sorted(os.listdir(self.real.base))
         return st
+
+    CALL_TIMEOUT = 20.0
+
+    def run_real(self, call):
+        """the real call, on a watched thread: a sequential call that does not return is a result, not a hang of
+        the check. Afterwards the instance is given up (later calls are answered without being made)."""
+        if self.hung:
+            return "err CallDidNotReturn"
+        import threading
+        box = []
+        th = threading.Thread(target=lambda: box.append(self.real.run(call)), daemon=True)
+        th.start()
+        th.join(self.CALL_TIMEOUT)
+        if th.is_alive() or not box:
+            self.hung = True
+            return "err CallDidNotReturn"
+        return box[0]
 
     def close(self):
         self.real.close()
